@@ -26,7 +26,9 @@ def report_oracle(res, pid, cases, what):
 
 
 def sql_correspondence(res, cases, label="printer"):
-    tbl = os.path.join(vlib.BUILD, "isprint.tbl")
+    tbl = os.path.join(vlib.BUILD, "isprint-%s-%d.tbl" % (res.pid, os.getpid()))   # per run: checks may run side by side
+    import atexit
+    atexit.register(lambda p=tbl: os.path.exists(p) and os.remove(p))
     with open(tbl, "w") as f:
         f.write("\n".join(vlib._run_out([vlib.HARNESS, "isprint-table"])) + "\n")
     r = tree_correspondence(res, cases, [("sql", ["tree-sql"], ["tree-sql", tbl])])
@@ -90,6 +92,8 @@ def c01(res, st, std_coq):
     cases += gens.sentence_cases(rnd, 3000 if q else 60000)
     cases += [("ParseStatement", s) for s in gens.regression(res.pid)] + [("ParseExpr", s) for s in gens.regression(res.pid)]
     sql_correspondence(res, cases)
+    if res.pid == "C01":
+        fragment_roundtrip_check(res, rnd, q)
     what = {"C01": "parse -> SQL() -> parse is not stable", "C02": "SQL() drops, adds or moves a significant token"}[res.pid]
     report_oracle(res, res.pid, cases, what)
     res.add_cases(len(cases), len(set(cases)), [gens.case_lines(cases[:1]).strip()[:200], gens.case_lines(cases[-1:]).strip()[:200]])
@@ -99,6 +103,35 @@ def c01(res, st, std_coq):
                        "distinct = distinct (entry, input)")
     res.assumptions += ["parser productions outside the expression fragment are sampled, not proved",
                         "derived fields (IntLiteral.Base, SetNoSkipRange.NoSkipRange, BadQueryExpr.Hint, BadNode range) are exempt from the field-use obligation"]
+
+
+def fragment_roundtrip_check(res, rnd, q):
+    """the hypotheses of C01_fragment_roundtrip on real data: for every enumerated operator tree x (<= 3 operators, minimal and full
+    spelling, + random deeper ones): the model's tree for x (positions erased) is canonical (canb), and the tokens the real lexer
+    produces for SQL(ParseExpr(x)) agree with its canonical spelling (same_tokensb)"""
+    cases = gens.precedence_cases(rnd, 3 if q else 4, 3000 if q else 60000)
+    xs = sorted(set(x for x, _ in cases))
+    inp = "\n".join(hexs(x) for x in xs) + "\n"
+    shape = vlib.run_lines(vlib.HARNESS, ["expr-shape"], inp)
+    sqls = []
+    for l in shape:
+        h = l.split(" => ", 1)[1].partition(" | ")[2].strip()
+        sqls.append(unhex(h) if h else None)
+    pairs = [(x, s_) for x, s_ in zip(xs, sqls) if s_ is not None]
+    allstr = sorted(set([x for x, _ in pairs] + [s_ for _, s_ in pairs]))
+    toks = dict(zip(allstr, [l.split(" => ", 1)[1] for l in vlib.run_lines(vlib.HARNESS, ["expr-toks"], "\n".join(hexs(s_) for s_ in allstr) + "\n")]))
+    lines = [toks[x] + " | " + toks[s_] for x, s_ in pairs]
+    out = vlib.run_lines(vlib.DRIVER, ["expr-c01"], "\n".join(lines) + "\n")
+    from collections import Counter
+    cnt = Counter(out)
+    diffs = [(x, s_) for (x, s_), o in zip(pairs, out) if o == "DIFF"]
+    for (x, s_) in diffs[:3]:
+        res.violation("the printed text of an operator-core expression does not lex to the canonical spelling of its tree",
+                      {"kind": "c01-fragment", "entry": "ParseExpr", "input_hex": hexs(x), "sql": s_.decode(errors="replace")[:300]})
+    res.obligation("hypotheses of C01_fragment_roundtrip hold on %d enumerated operator trees (tree canonical; lex(SQL(tree)) == canonical spelling): %d checked, %d outside the operator core"
+                   % (len(pairs), cnt.get("OK", 0), len(pairs) - cnt.get("OK", 0) - cnt.get("DIFF", 0)), not diffs and cnt.get("OK", 0) > 0, str(diffs[:2]))
+    res.extra["fragment_roundtrip"] = {"inputs": len(xs), "with_sql": len(pairs), "verdicts": dict(cnt)}
+    res.add_cases(len(pairs), cnt.get("OK", 0), [])
 
 
 def c18(res, st, std_coq):
